@@ -14,6 +14,7 @@ if os.environ.get("PYTHONHASHSEED") != "0":
     os.environ["PYTHONHASHSEED"] = "0"
     os.execv(sys.executable, [sys.executable] + sys.argv)
 sys.path.insert(0, HERE)
+sys.setrecursionlimit(20000)     # the drivers' own helpers recurse over deep degenerate trees (not the code under test)
 from lib import core, runner  # noqa: E402
 
 
